@@ -69,6 +69,12 @@ def run_panic_matrix(lines, out, jobs=8, timeout=60):
         vs, _ = LO.check_c01(an)
         for v in vs:
             out.violation("C08:" + v.code, "in a panic scenario: " + v.msg, {"engine": "native", "bin": "loopdrv", "cfg": cfgline, "violation": v.to_json()})
+        # the overlap clause in the round that unwinds: no thread drops values inside another thread's timed section
+        vs, info = LO.check_c08_panic_overlap(an)
+        seen["drop_window_pairs"] = seen.get("drop_window_pairs", 0) + info.get("panic_round_drop_window_pairs", 0)
+        for v in vs:
+            out.violation("C08:" + v.code + ":panic_in_" + phase, "in a panic scenario: " + v.msg,
+                          {"engine": "native", "bin": "loopdrv", "cfg": cfgline, "violation": v.to_json()})
     seen["phases"] = sorted(seen["phases"])
     seen["subsets"] = sorted(seen["subsets"])
     return seen
